@@ -236,7 +236,8 @@ def results_case(draw):
     pipe = draw(st.lists(item, min_size=n, max_size=n))
     if with_ps:
         pipe = pipe[:3] + [{"kind": "param_shift"}]
-    batch = draw(st.lists(tape_spec(allow_batch=not with_ps), min_size=0, max_size=4))
+    nb = draw(st.sampled_from([0, 1, 1, 2, 2, 3, 3, 4, 4]))
+    batch = draw(st.lists(tape_spec(allow_batch=not with_ps), min_size=nb, max_size=nb))
     return {"mode": "results", "pipe": pipe, "batch": batch,
             "build": draw(st.sampled_from(["ctor", "ctor_list", "add", "append", "mixed"])),
             "single": draw(st.booleans())}
@@ -296,6 +297,7 @@ def container_case(tier):
         "mode": st.just("container"),
         "init": st.lists(plain_tok(), max_size=4),
         "init_how": st.sampled_from(["args", "list", "iadd"]),
+        "init_markers": st.lists(st.tuples(st.sampled_from(LABELS), st.integers(0, 4)).map(list), max_size=3),
         "steps": st.lists(step(), min_size=1, max_size=mx)})
 
 
@@ -843,6 +845,10 @@ def check_container(spec):
         p = CompilePipeline()
         for o in objs:
             p += o
+    for lab, lev in spec.get("init_markers", []):
+        if lab not in m.markers and 0 <= lev <= len(m.slots):
+            p.add_marker(lab, lev)
+            m.markers[lab] = lev
     agree(p, m, "initial", "init/" + spec["init_how"])
 
     older = []  # (pipeline, model) of earlier values that must stay untouched
